@@ -224,12 +224,38 @@ type simFace struct {
 	out     [][]byte
 }
 
-// drain takes what has been sent so far.
+// drain takes what has been sent so far, in a canonical order (several goroutines
+// of a router may have sent at the same simulated instant).
 func (f *simFace) drain() [][]byte {
 	f.mu.Lock()
-	defer f.mu.Unlock()
 	out := f.out
 	f.out = nil
+	f.mu.Unlock()
+	if len(out) > 1 {
+		key := func(raw []byte) string {
+			pkt, _, err := spec.ReadPacket(enc.NewBufferReader(raw))
+			if err != nil {
+				return ""
+			}
+			if pkt.LpPacket != nil {
+				if in, _, err := spec.ReadPacket(enc.NewWireReader(pkt.LpPacket.Fragment)); err == nil {
+					pkt = in
+				}
+			}
+			switch {
+			case pkt.Interest != nil:
+				n := pkt.Interest.NameV
+				if len(n) > 5 && hasPrefix(n, "/localhost/nfd") {
+					n = n[:5] // management command without its signature components (timestamp, nonce)
+				}
+				return "I" + n.String()
+			case pkt.Data != nil:
+				return "D" + pkt.Data.NameV.String()
+			}
+			return ""
+		}
+		sort.SliceStable(out, func(i, j int) bool { return key(out[i]) < key(out[j]) })
+	}
 	return out
 }
 
